@@ -5,6 +5,7 @@ package main
 
 import (
 	"fmt"
+	"go/token"
 	"sort"
 	"strings"
 
@@ -401,6 +402,41 @@ func checkC05(r *Result) {
 		r.check(fmt.Sprint(callers) == "[(x/reporter/keeper.Keeper).FeefromReporterStake (x/reporter/keeper.Keeper).MoveTokensFromValidator (x/reporter/keeper.Keeper).deductUnbondingDelegation]", "PAIR-UNBOND", "callers of tokensToDispute", "-", fmt.Sprint(callers))
 	}
 	if du := need("(x/reporter/keeper.Keeper).deductUnbondingDelegation"); du != nil {
+		// an element address taken before RemoveEntry names the *next* entry afterwards (the slice is shifted in place):
+		// nothing may be read through it after the removal
+		{
+			n, bad := 0, ""
+			for _, cs := range P.CallSitesIn(du) {
+				if cs.Method != "RemoveEntry" || cs.Fn != du {
+					continue
+				}
+				n++
+				for _, b := range du.Blocks {
+					for _, in := range b.Instrs {
+						ld, ok := in.(*ssa.UnOp)
+						if !ok || ld.Op != token.MUL {
+							continue
+						}
+						a := ld.X
+						for {
+							if fa, ok := a.(*ssa.FieldAddr); ok {
+								a = fa.X
+								continue
+							}
+							break
+						}
+						ia, ok := a.(*ssa.IndexAddr)
+						if !ok {
+							continue
+						}
+						if reachAvoid(ia, cs.Instr, nil) && reachAvoid(cs.Instr, ld, ia) {
+							bad = fmt.Sprintf("%s reads through an element address taken at %s before the removal at %s", P.Pos(ld.Pos()), P.Pos(ia.Pos()), P.Pos(cs.Pos()))
+						}
+					}
+				}
+			}
+			r.check(bad == "" && n >= 1, "PAIR-UNBOND", "(x/reporter/keeper.Keeper).deductUnbondingDelegation # no read through an entry address after RemoveEntry", P.Pos(du.Pos()), fmt.Sprintf("%d removal sites %s", n, bad))
+		}
 		for _, cs := range P.CallSitesIn(du) {
 			if cs.Callee == "(x/reporter/keeper.Keeper).tokensToDispute" {
 				pool := poolOf(Arg(cs.Instr, 1))
